@@ -44,6 +44,7 @@ func TemplateFromCert(ctx context.Context, cert *x509.Certificate, pubKey any) (
 	var subjectCn string
 	var subjectSerial *big.Int
 	var timestamp time.Time
+	validDays := styp.SignValidDays
 
 	template := *cert // copy the root certificate
 	template.PublicKey = pubKey
@@ -62,6 +63,7 @@ func TemplateFromCert(ctx context.Context, cert *x509.Certificate, pubKey any) (
 		subjectCn = bc.RootKeyCommonName
 		subjectSerial = bc.RootKeySerial
 		timestamp = bc.Now
+		validDays = styp.RootValidDays
 		template.Issuer.CommonName = bc.RootKeyCommonName
 		template.Issuer.SerialNumber = subjectSerial.String()
 	} else {
@@ -76,7 +78,11 @@ func TemplateFromCert(ctx context.Context, cert *x509.Certificate, pubKey any) (
 
 	template.Subject.CommonName = subjectCn
 	template.Subject.SerialNumber = subjectSerial.String()
+	// The certificate serial number is the same as the subject's since certificates aren't reissued.
+	if subjectSerial != nil {
+		template.SerialNumber = new(big.Int).Set(subjectSerial)
+	}
 	template.NotBefore = timestamp
-	template.NotAfter = timestamp.Add(time.Duration(styp.SignValidDays) * 24 * time.Hour)
+	template.NotAfter = timestamp.Add(time.Duration(validDays) * 24 * time.Hour)
 	return &template, nil
 }
